@@ -603,16 +603,26 @@ class QueryObjectDescriptor(CanBehaveLikeAVariable[T], ABC):
                     v = conclusion._evaluate__(v)
             self._warn_on_unbound_variables_(v, selected_vars)
             if selected_vars:
-                var_val_gen = {var: var._evaluate__(copy(v))
-                               for var in selected_vars}
-                original_v = v
-                for sol in generate_combinations(var_val_gen):
-                    v = copy(original_v)
-                    var_val = {var._id_: sol[var][var._id_] for var in selected_vars}
-                    v.update(var_val)
-                    yield v
+                yield from self._bind_selected_variables_(v, list(selected_vars))
             else:
                 yield v
+
+    def _bind_selected_variables_(self, bindings: Dict[int, HashedValue],
+                                  selected_vars: List[CanBehaveLikeAVariable]) -> Iterable[Dict[int, HashedValue]]:
+        """
+        Bind the selected variables one after the other, each under the bindings made so far, such that selected
+        expressions that share variables stay correlated while unrelated ones are combined freely (and lazily).
+
+        :param bindings: The bindings after applying the conditions (and the previous selected variables).
+        :param selected_vars: The selected variables that are still to be bound.
+        """
+        if not selected_vars:
+            yield bindings
+            return
+        for var_val in selected_vars[0]._evaluate__(copy(bindings)):
+            new_bindings = copy(bindings)
+            new_bindings.update(var_val)
+            yield from self._bind_selected_variables_(new_bindings, selected_vars[1:])
 
     def _warn_on_unbound_variables_(self, sources: Dict[int, HashedValue],
                                     selected_vars: Iterable[CanBehaveLikeAVariable]):
